@@ -15,6 +15,10 @@ void vh_stub_locale2lang(Locale2Lang *self) {
 #endif
 VH_ENTRY vh_name() {
   uint8_t *t = vh_bytes(LEN);
+#ifdef STROFF_MIN   /* quick tier: the string storage starts behind the records, as font compilers lay it out (bounds the name lengths, i.e. the
+                       allocation sizes the solver has to split over); the thorough tier runs without this */
+  if (LEN >= 6) ASSUME(((t[4] << 8) | t[5]) >= STROFF_MIN);
+#endif
   NameTable *nt = new NameTable(t, LEN, 3, 1);
   ASSUME(nt != 0);
   free(t);                                   // the table keeps its own copy: the provider's buffer may go away
@@ -28,8 +32,10 @@ VH_ENTRY vh_name() {
     if (enc == gr_utf32) ASSERT(((uint32_t *)name)[length] == 0, "label is NUL terminated at its reported length (utf32)");
     free(name);
   } else ASSERT(length == 0, "no label: length 0");
+#ifndef NOLANG
   char loc[3]; loc[0] = (char)nondet_u8(); loc[1] = (char)nondet_u8(); loc[2] = 0;
   ASSUME(loc[0] != 0 && loc[1] != 0);
   (void)nt->getLanguageId(loc);
+#endif
   VH_END();
 }
